@@ -226,3 +226,17 @@ def norelapse(e):
         vals = [v for v in sc[k:] if v is not None]
         return ("probe", [None] * k + vals) if vals else ("probe", [None] * max(k, 1) + [F(1)])
     return tuple(norelapse(a) if isinstance(a, tuple) else a for a in e)
+
+
+def gen_pure_tree(rng, depth):
+    """trees of combinators (Add, Subtract, Multiply, Divide, Tanh, GTE, LTE) over Echo / Constant leaves"""
+    if depth <= 0:
+        return ECHO if rng.random() < 0.6 else ("const", F(rng.randint(-8, 8), 2))
+    r = rng.random()
+    if r < 0.2:
+        return ("tanh", gen_pure_tree(rng, depth - 1))
+    if r < 0.4:
+        return mk(rng.choice(["gte", "lte"]), gen_pure_tree(rng, depth - 1), [F(rng.randint(-16, 16), 4)])
+    op = rng.choice(BINOPS)
+    b = gen_pure_tree(rng, depth - 1) if op != "div" else ("const", F(rng.choice([-3, -1, 2, 5]), 2))
+    return (op, gen_pure_tree(rng, depth - 1), b)
